@@ -17,7 +17,6 @@ import (
 
 	"github.com/flant/shell-operator/pkg/app"
 	"github.com/flant/shell-operator/pkg/hook"
-	hookcfg "github.com/flant/shell-operator/pkg/hook/config"
 	utils_file "github.com/flant/shell-operator/pkg/utils/file"
 	"github.com/flant/shell-operator/pkg/webhook/admission"
 	"github.com/flant/shell-operator/pkg/webhook/conversion"
@@ -32,6 +31,9 @@ type c20Node struct {
 	mode     os.FileMode
 	kind     string // ok | fail | invalid
 	variant  int
+	// class != "": a generated configuration (c20_cfg.go, c20GenSchedules); the hook prints text,
+	// kind (ok | invalid) is its fixed verdict
+	class, text string
 }
 
 var c20FileNames = []string{"a", "b", "c", "hook", "hook.sh", "a.sh", "a-b", "a0", "a.yaml", "b.json", "r.md", "n.txt",
@@ -41,41 +43,6 @@ var c20DirNames = []string{"a", "b", "lib", ".git", ".hid", "sub", "lib2", "xlib
 	"lib.d", "hook", "n.txt", ".lib", "A"}
 var c20RootNames = []string{"hooks", "hooks", "hooks", "hooks", "lib", ".hooks", ".git", "hooks.d", "lib2", "a.yaml", "h"}
 var c20Modes = []os.FileMode{0o755, 0o755, 0o755, 0o644, 0o700, 0o600, 0o010, 0o001, 0o100, 0o111, 0o666, 0o011, 0o444, 0o000, 0o750, 0o655}
-
-// candidate outputs; validated against the real LoadAndValidate once per run (c20Variants)
-var c20OkOutputs = []string{
-	`{"configVersion":"v1","onStartup":1}`,
-	`{"configVersion":"v1","onStartup":20,"settings":{"executionMinInterval":"1s"}}`,
-	`{"onStartup": 5}`,
-	"configVersion: v1\nonStartup: 7\n",
-	`{"configVersion":"v1"}`,
-}
-var c20InvalidOutputs = []string{
-	`not a config {`,
-	`{"configVersion":"v9","onStartup":1}`,
-	`{"configVersion":"v1","onStartup":"first"}`,
-	`{"configVersion":"v1","kubernetes":[{"kind":""}],"unknownField":1}`,
-	``,
-}
-
-func c20Validate(outs []string, wantOK bool) []string {
-	var res []string
-	for _, o := range outs {
-		c := &hookcfg.HookConfig{}
-		err := func() (err error) {
-			defer func() {
-				if p := recover(); p != nil {
-					err = fmt.Errorf("panic")
-				}
-			}()
-			return c.LoadAndValidate([]byte(o))
-		}()
-		if (err == nil) == wantOK {
-			res = append(res, o)
-		}
-	}
-	return res
-}
 
 func c20GenDir(rng *Rng, depth int, isRoot bool) []*c20Node {
 	n := rng.Range(0, 5)
@@ -114,6 +81,9 @@ func c20GenDir(rng *Rng, depth int, isRoot bool) []*c20Node {
 		default:
 			nd.kind = "invalid"
 		}
+		if nd.kind != "fail" && rng.Chance(12) {
+			nd.kind, nd.class, nd.text = c20GenSchedules(rng, nd.kind == "invalid")
+		}
 		out = append(out, nd)
 	}
 	sort.Slice(out, func(i, j int) bool { return out[i].name < out[j].name }) // the order filepath.Walk visits
@@ -121,8 +91,19 @@ func c20GenDir(rng *Rng, depth int, isRoot bool) []*c20Node {
 }
 
 type c20Env struct {
-	okOut, badOut []string
+	okOut, badOut []c20Out // the catalogue of c20_cfg.go: verdicts fixed on the unchanged tree, not asked of the code under test
 	euid          int
+}
+
+// out is what the file prints on --config (kinds ok and invalid)
+func (e *c20Env) out(nd *c20Node) c20Out {
+	switch {
+	case nd.class != "":
+		return c20Out{nd.class, nd.text}
+	case nd.kind == "ok":
+		return e.okOut[nd.variant%len(e.okOut)]
+	}
+	return e.badOut[nd.variant%len(e.badOut)]
 }
 
 func (e *c20Env) script(rel, logPath string, nd *c20Node) string {
@@ -130,9 +111,9 @@ func (e *c20Env) script(rel, logPath string, nd *c20Node) string {
 	fmt.Fprintf(b, "#!/bin/bash\necho %q \"$*\" >> %q\n", rel, logPath)
 	switch nd.kind {
 	case "ok":
-		fmt.Fprintf(b, "cat <<'EOF_CFG'\n%s\nEOF_CFG\n", e.okOut[nd.variant%len(e.okOut)])
+		fmt.Fprintf(b, "cat <<'EOF_CFG'\n%s\nEOF_CFG\n", e.out(nd).text)
 	case "invalid":
-		o := e.badOut[nd.variant%len(e.badOut)]
+		o := e.out(nd).text
 		if o != "" {
 			fmt.Fprintf(b, "cat <<'EOF_CFG'\n%s\nEOF_CFG\n", o)
 		}
@@ -141,7 +122,7 @@ func (e *c20Env) script(rel, logPath string, nd *c20Node) string {
 		case 0:
 			b.WriteString("exit 3\n")
 		case 1: // a valid configuration on stdout, but the run fails
-			fmt.Fprintf(b, "cat <<'EOF_CFG'\n%s\nEOF_CFG\nexit 1\n", e.okOut[0])
+			fmt.Fprintf(b, "cat <<'EOF_CFG'\n%s\nEOF_CFG\nexit 1\n", e.okOut[0].text)
 		case 2:
 			b.WriteString("echo boom >&2\nkill -9 $$\n")
 		}
@@ -149,8 +130,21 @@ func (e *c20Env) script(rel, logPath string, nd *c20Node) string {
 	return b.String()
 }
 
-// materialise writes the tree; returns the protocol tokens and the relative names of all files
-func (e *c20Env) materialise(dir, rel, logPath string, nodes []*c20Node, toks *[]string, files *[]string) error {
+// writeFile writes one generated hook file (script, then mode).
+func (e *c20Env) writeFile(p, rel, logPath string, nd *c20Node) error {
+	// no fork of a concurrent case may happen while the script is open for writing: the child
+	// would inherit the descriptor until its exec and running the script would fail with ETXTBSY
+	syscall.ForkLock.RLock()
+	err := os.WriteFile(p, []byte(e.script(rel, logPath, nd)), 0o600)
+	syscall.ForkLock.RUnlock()
+	if err != nil {
+		return err
+	}
+	return os.Chmod(p, nd.mode)
+}
+
+// materialise writes the tree below dir
+func (e *c20Env) materialise(dir, rel, logPath string, nodes []*c20Node) error {
 	for _, nd := range nodes {
 		p := filepath.Join(dir, nd.name)
 		r := nd.name
@@ -161,28 +155,46 @@ func (e *c20Env) materialise(dir, rel, logPath string, nodes []*c20Node, toks *[
 			if err := os.Mkdir(p, 0o755); err != nil {
 				return err
 			}
-			*toks = append(*toks, "d", nd.name)
-			if err := e.materialise(p, r, logPath, nd.children, toks, files); err != nil {
+			if err := e.materialise(p, r, logPath, nd.children); err != nil {
 				return err
 			}
+			continue
+		}
+		if err := e.writeFile(p, r, logPath, nd); err != nil {
+			return err
+		}
+	}
+	return nil
+}
+
+// kindTok is the outcome token of a file in the tree line: ok | fail | invalid, followed by what
+// exactly the hook prints / does (the Lean driver reads the part before the colon).
+func (e *c20Env) kindTok(nd *c20Node) string {
+	switch nd.kind {
+	case "ok", "invalid":
+		return nd.kind + ":" + e.out(nd).class
+	case "fail":
+		return "fail:" + []string{"exit3", "valid-output-then-exit1", "kill9"}[nd.variant%3]
+	}
+	return nd.kind
+}
+
+// describe returns the protocol tokens of the tree and the relative names of all its files
+func (e *c20Env) describe(rel string, nodes []*c20Node, toks *[]string, files *[]string) {
+	for _, nd := range nodes {
+		r := nd.name
+		if rel != "" {
+			r = rel + "/" + nd.name
+		}
+		if nd.dir {
+			*toks = append(*toks, "d", nd.name)
+			e.describe(r, nd.children, toks, files)
 			*toks = append(*toks, "u")
 			continue
 		}
-		// no fork of a concurrent case may happen while the script is open for writing: the child
-		// would inherit the descriptor until its exec and running the script would fail with ETXTBSY
-		syscall.ForkLock.RLock()
-		err := os.WriteFile(p, []byte(e.script(r, logPath, nd)), 0o600)
-		syscall.ForkLock.RUnlock()
-		if err != nil {
-			return err
-		}
-		if err := os.Chmod(p, nd.mode); err != nil {
-			return err
-		}
-		*toks = append(*toks, "f", nd.name, fmt.Sprintf("%o", uint32(nd.mode)), nd.kind)
+		*toks = append(*toks, "f", nd.name, fmt.Sprintf("%o", uint32(nd.mode)), e.kindTok(nd))
 		*files = append(*files, r)
 	}
-	return nil
 }
 
 func c20NameChar(b byte) bool {
@@ -213,7 +225,22 @@ func c20Rels(workingDir string, paths []string) []string {
 	return out
 }
 
+// c20Start is one later start of the operator in the same process: how the hooks directory changed
+// since the previous start (see c20_multi.go)
+type c20Start struct {
+	rebuild bool // remove the hooks directory and build another tree at the same path
+	edits   int  // otherwise: number of edits
+	mtimes  int  // 0: leave modification times alone, 1: restore the hooks directory's own mtime, 2: of every directory
+}
+
 func (e *c20Env) runCase(r *Run, c *Case, rootName string, nodes []*c20Node, withInit bool) {
+	e.runStarts(r, c, nil, rootName, nodes, withInit, nil)
+}
+
+// runStarts materialises the tree, performs a start (walk + Manager.Init), then for every entry of
+// `later` changes the tree on disk and performs another start in the same process (new hook manager on
+// the same path). The property speaks about every start: each one gets its own tree line and oracles.
+func (e *c20Env) runStarts(r *Run, c *Case, rng *Rng, rootName string, nodes []*c20Node, withInit bool, later []c20Start) {
 	base := filepath.Join(r.Scratch, fmt.Sprintf("c%d", c.Idx))
 	workingDir := filepath.Join(base, rootName)
 	logPath := filepath.Join(base, "invocations.log")
@@ -224,11 +251,39 @@ func (e *c20Env) runCase(r *Run, c *Case, rootName string, nodes []*c20Node, wit
 	}
 	_ = os.MkdirAll(tmpDir, 0o755)
 	defer os.RemoveAll(base)
-	var toks, files []string
-	if err := e.materialise(workingDir, "", logPath, nodes, &toks, &files); err != nil {
+	if err := e.materialise(workingDir, "", logPath, nodes); err != nil {
 		c.Inconcl = "materialise: " + err.Error()
 		return
 	}
+	if !e.start(r, c, base, rootName, nodes, withInit) {
+		return
+	}
+	for i, st := range later {
+		var err error
+		var what string
+		nodes, what, err = e.change(rng, workingDir, logPath, nodes, st)
+		if err != nil {
+			c.Inconcl = "change: " + err.Error()
+			return
+		}
+		_ = i
+		for _, w := range strings.Split(what, "+") {
+			c.Note("later-start-after:" + w)
+		}
+		if !e.start(r, c, base, rootName, nodes, withInit) {
+			return
+		}
+	}
+}
+
+// start = what the operator does when it starts: RequireExistingDirectory, the walk, Manager.Init.
+func (e *c20Env) start(r *Run, c *Case, base, rootName string, nodes []*c20Node, withInit bool) bool {
+	workingDir := filepath.Join(base, rootName)
+	logPath := filepath.Join(base, "invocations.log")
+	tmpDir := filepath.Join(base, "tmp")
+	_ = os.Remove(logPath)
+	var toks, files []string
+	e.describe("", nodes, &toks, &files)
 	line := "tree " + rootName
 	if len(toks) > 0 {
 		line += " " + strings.Join(toks, " ")
@@ -257,7 +312,7 @@ func (e *c20Env) runCase(r *Run, c *Case, rootName string, nodes []*c20Node, wit
 	c.Note(fmt.Sprintf("hooksdir-spelling:%d", c.Idx%5))
 	if wd, err := utils_file.RequireExistingDirectory(spelled); err != nil {
 		c.Op(line, "walk=err-require-dir")
-		return
+		return false
 	} else {
 		workingDir = wd
 	}
@@ -266,13 +321,13 @@ func (e *c20Env) runCase(r *Run, c *Case, rootName string, nodes []*c20Node, wit
 	paths, err := utils_file.RecursiveGetExecutablePaths(workingDir)
 	if err != nil {
 		c.Op(line, "walk=err")
-		return
+		return false
 	}
 	rels := c20Rels(canon, paths)
 	c.Op(line, "walk="+joinStrs(rels))
 	c.Oracle("discover got=" + joinStrs(rels))
 	if !withInit {
-		return
+		return true
 	}
 
 	// 2. Manager.Init
@@ -306,6 +361,10 @@ func (e *c20Env) runCase(r *Run, c *Case, rootName string, nodes []*c20Node, wit
 	if ierr != nil {
 		failed = "1"
 		text := strings.ReplaceAll(strings.ReplaceAll(ierr.Error(), workingDir+"/", ""), canon+"/", "")
+		// what the hook printed is quoted in the error: it is not where the error "names the hook"
+		if i := strings.Index(text, "\nhook --config output:"); i >= 0 {
+			text = text[:i]
+		}
 		// the hook the error names: a file name of the tree that appears quoted; if the wording has no
 		// quoted file name, any file name that appears as a whole path token
 		for _, f := range files {
@@ -325,6 +384,7 @@ func (e *c20Env) runCase(r *Run, c *Case, rootName string, nodes []*c20Node, wit
 	obs := fmt.Sprintf("names=%s asked=%s err=%s", joinStrs(names), joinStrs(asked), joinStrs(errNames))
 	c.Op("init", obs)
 	c.Oracle("load failed=" + failed + " " + obs)
+	return true
 }
 
 func c20Count(nodes []*c20Node, f func(*c20Node, int), depth int) {
@@ -361,6 +421,9 @@ func (e *c20Env) classify(c *Case, rootName string, nodes []*c20Node) {
 			if n.kind != "ok" {
 				bad++
 			}
+			if n.kind == "invalid" && n.mode&0o111 != 0 {
+				c.Note("invalid-cfg:" + c20CfgFamily(e.out(n).class))
+			}
 		}
 	}
 	rec(nodes, 1, false, false)
@@ -389,12 +452,14 @@ func (e *c20Env) classify(c *Case, rootName string, nodes []*c20Node) {
 }
 
 func runC20(r *Run) {
-	r.Rule = "random directory trees materialised on disk (hooks-directory names incl. lib/.hooks/.git, depth <= 4, 0-7 entries per directory from pools of 32 file names and 18 directory names so that names collide across directories; modes from a biased pool plus uniformly random 9-bit modes incl. group/other-only execute bits; excluded extensions, hidden files, lib/hidden directories at any depth, byte-order traps such as a.sh vs a/b); every file is a bash script that logs its invocation and prints a valid config (5 variants), an invalid one (validated against the real LoadAndValidate) or fails (exit 3 / valid output then exit 1 / kill -9). The hooks directory is given in one of five spellings (canonical, trailing slash, /./, name/../name, relative to the current directory) to the real RequireExistingDirectory (as bootstrap.go does), whose answer goes to the real RecursiveGetExecutablePaths, then real hook.Manager.Init. Thorough adds the exhaustive scope {3 root names} x {directory chains of length 0-2 over s/lib/.g} x {8 file names} x {5 modes} plus all 512 modes for one file. Non-trivial: >= 2 files of which some but not all carry an execute bit, or a non-default hooks-directory name with an executable file; distinct = distinct tree lines."
+	r.Rule = "random directory trees materialised on disk (hooks-directory names incl. lib/.hooks/.git, depth <= 4, 0-7 entries per directory from pools of 32 file names and 18 directory names so that names collide across directories; modes from a biased pool plus uniformly random 9-bit modes incl. group/other-only execute bits; excluded extensions, hidden files, lib/hidden directories at any depth, byte-order traps such as a.sh vs a/b); every file is a bash script that logs its invocation and prints a valid config, an invalid one or fails (exit 3 / valid output then exit 1 / kill -9). Configurations come from a catalogue with FIXED verdicts (calibrated once on the unchanged tree, never asked of the code under test): 71 invalid documents with one defect each (bad crontab of several kinds, unknown field, wrong type, unsupported configVersion, malformed label/field/name selector, unknown or ambiguous includeSnapshotsFrom, ambiguous group, bad settings, admission/conversion defects; 20 of them in the legacy v0 format without configVersion) and 14 valid ones, each printed as JSON and as YAML, 10 malformed outputs, plus generated schedule lists (v0 or v1, JSON or YAML, 1-4 entries, crontabs from calibrated valid/invalid pools). The hooks directory is given in one of five spellings (canonical, trailing slash, /./, name/../name, relative to the current directory) to the real RequireExistingDirectory (as bootstrap.go does), whose answer goes to the real RecursiveGetExecutablePaths, then real hook.Manager.Init. 35% of the random cases perform 2-3 starts in the same process: between starts 1-3 edits (file added / removed / chmod +x / chmod -x / rewritten, sub-directory added / removed; 75% strictly below a sub-directory) or a rebuild of the whole tree at the same path, optionally with the modification time of the hooks directory or of every directory put back; each start has its own tree line and oracles. Fixed-index blocks: every catalogue entry alone between two good hooks (10000+, 20000+), generated schedule lists (30000+). Thorough adds the exhaustive scope {3 root names} x {directory chains of length 0-2 over s/lib/.g} x {8 file names} x {5 modes} plus all 512 modes for one file. Non-trivial: >= 2 files of which some but not all carry an execute bit, or a non-default hooks-directory name with an executable file, or a catalogue / multi-start corpus case; distinct = distinct tree lines."
 	e := &c20Env{euid: os.Geteuid()}
-	e.okOut = c20Validate(c20OkOutputs, true)
-	e.badOut = c20Validate(c20InvalidOutputs, false)
+	e.okOut = c20Expand(c20GoodCfgs, false)
+	e.badOut = append(c20Expand(c20BadCfgs, false), c20Expand(c20BadRaw, true)...)
 	r.Extra["valid_config_variants"] = len(e.okOut)
 	r.Extra["invalid_config_variants"] = len(e.badOut)
+	// diagnostics only (and warm-up of the loader's schema cache): the verdicts are fixed in c20_cfg.go
+	r.Extra["catalogue_disagreements_of_this_loader"] = append(c20Disagreements(e.okOut, true), c20Disagreements(e.badOut, false)...)
 	r.Extra["euid"] = e.euid
 	r.Extra["symlinks"] = "not generated: filepath.Walk uses Lstat, symlink behaviour is observed only (see notes/C20.md)"
 	// symbolic links: observed only (outside the model): what does the walk return for a link to an
@@ -418,10 +483,6 @@ func runC20(r *Run) {
 			}
 		}
 	}()
-	if len(e.okOut) == 0 || len(e.badOut) == 0 {
-		r.One(0, func(c *Case, _ *Rng) { c.Op("setup", "no valid/invalid config variant accepted/rejected by LoadAndValidate") })
-		return
-	}
 	if e.euid != 0 {
 		// without root an execute bit for group/other only does not let the owner run the file:
 		// keep the invocation log decidable by giving such files the owner bit as well
@@ -449,7 +510,7 @@ func runC20(r *Run) {
 		{"corpus: byte order a-b < a.sh < a/b < a0, second hook invalid", "hooks",
 			[]*c20Node{d("a", f("b", 0o010, "ok")), f("a-b", 0o755, "ok"), f("a.sh", 0o755, "invalid"), f("a0", 0o755, "fail")}},
 		{"corpus: lib and hidden directories at depth 3, file named lib, directory with excluded extension", "hooks",
-			[]*c20Node{d("s", d("t", d("lib", f("h", 0o755, "fail")), d(".g", f("h", 0o755, "fail")), f("lib", 0o001, "ok"))),
+			[]*c20Node{d("s", d("t", d("lib", f("h", 0o755, "fail")), d(".g", f("h", 0o755, "fail"))), f("lib", 0o001, "ok")),
 				d("d.yaml", f("h", 0o100, "ok")), f("c.yaml", 0o755, "fail"), f(".h", 0o755, "fail"), f("n", 0o666, "fail")}},
 		{"corpus: first hook fails after printing a valid config", "hooks",
 			[]*c20Node{{name: "00", mode: 0o755, kind: "fail", variant: 1}, f("zz", 0o755, "ok")}},
@@ -465,12 +526,83 @@ func runC20(r *Run) {
 			e.runCase(r, c, cc.root, cc.nodes, true)
 		})
 	}
+	// corpus: later starts in the same process after a change that does not touch the hooks directory itself
+	multi := []struct {
+		desc  string
+		nodes []*c20Node
+		apply func(wd string)
+		after []*c20Node
+	}{
+		{"corpus: second start after hooks were added and chmod +x'ed strictly below sub-directories",
+			[]*c20Node{d("sub", f("a.sh", 0o755, "ok"), f("b-not-yet.sh", 0o644, "ok"), d("deep", f("c.sh", 0o755, "ok"))), f("top.sh", 0o755, "ok")},
+			nil,
+			[]*c20Node{d("sub", f("a.sh", 0o755, "ok"), f("b-not-yet.sh", 0o755, "ok"), d("deep", f("c.sh", 0o755, "ok"), f("e-new.sh", 0o700, "ok"))), f("top.sh", 0o755, "ok")}},
+		{"corpus: second start after a nested hook lost its execute bit and another was removed",
+			[]*c20Node{d("sub", f("a.sh", 0o755, "ok"), d("deep", f("c.sh", 0o755, "ok"))), f("top.sh", 0o755, "ok")},
+			nil,
+			[]*c20Node{d("sub", f("a.sh", 0o644, "ok"), d("deep")), f("top.sh", 0o755, "ok")}},
+		{"corpus: second start after a top-level hook lost its execute bit (no directory's mtime moves)",
+			[]*c20Node{f("a.sh", 0o755, "ok"), f("b.sh", 0o755, "ok")},
+			nil,
+			[]*c20Node{f("a.sh", 0o755, "ok"), f("b.sh", 0o644, "ok")}},
+	}
+	for i, mc := range multi {
+		mc := mc
+		r.One(len(corpus)+i, func(c *Case, _ *Rng) {
+			c.Desc = mc.desc
+			e.classify(c, "hooks", mc.nodes)
+			c.Nontrivial = true
+			c.Note("starts:2")
+			e.runFixedStarts(r, c, "hooks", mc.nodes, mc.after)
+		})
+	}
 	n := r.N(1200, 8000)
 	r.Cases(100, n, 0, func(c *Case, rng *Rng) {
 		root := PickOne(rng, c20RootNames)
 		nodes := c20GenDir(rng, 1, true)
 		e.classify(c, root, nodes)
-		e.runCase(r, c, root, nodes, true)
+		var later []c20Start
+		if rng.Chance(35) {
+			later = c20GenStarts(rng)
+		}
+		c.Note(c20StartsDesc(later))
+		e.runStarts(r, c, rng, root, nodes, true, later)
+	})
+	// the catalogue, entry by entry: a hooks directory with a good hook before and after the one that
+	// prints the entry (indices fixed: 10000+i invalid entries, 20000+i valid entries)
+	r.Cases(10000, len(e.badOut), 0, func(c *Case, _ *Rng) {
+		i := c.Idx - 10000
+		o := e.badOut[i]
+		name := []string{"cron-hook.sh", "hook", "b.py"}[i%3]
+		nodes := []*c20Node{d("001-good", f("hook.sh", 0o755, "ok")),
+			d("002-x", &c20Node{name: name, mode: 0o755, kind: "invalid", variant: i}),
+			d("003-good", &c20Node{name: "hook.sh", mode: 0o755, kind: "ok", variant: i})}
+		c.Desc = "catalogue: invalid configuration " + o.class
+		c.Note("catalogue-invalid:" + c20CfgFamily(o.class))
+		c.Nontrivial = true
+		e.runCase(r, c, "hooks", nodes, true)
+	})
+	// generated schedule lists (1-4 entries, each crontab valid or not, both formats, both syntaxes)
+	r.Cases(30000, r.N(120, 800), 0, func(c *Case, rng *Rng) {
+		g := &c20Node{name: []string{"cron-hook.sh", "hook", "b.py"}[c.Idx%3], mode: 0o755}
+		g.kind, g.class, g.text = c20GenSchedules(rng, rng.Chance(60))
+		nodes := []*c20Node{d("001-good", f("hook.sh", 0o755, "ok")), d("002-x", g),
+			d("003-good", &c20Node{name: "hook.sh", mode: 0o755, kind: "ok", variant: c.Idx})}
+		c.Desc = "generated schedule list " + g.class
+		c.Note("generated-schedules:" + g.kind + ":" + c20CfgFamily(strings.TrimPrefix(g.class, "gen-")))
+		c.Nontrivial = true
+		e.runCase(r, c, "hooks", nodes, true)
+	})
+	r.Cases(20000, len(e.okOut), 0, func(c *Case, _ *Rng) {
+		i := c.Idx - 20000
+		o := e.okOut[i]
+		nodes := []*c20Node{d("001-good", f("hook.sh", 0o755, "ok")),
+			d("002-x", &c20Node{name: "hook", mode: 0o755, kind: "ok", variant: i}),
+			d("003-bad", &c20Node{name: "hook.sh", mode: 0o755, kind: "invalid", variant: i})}
+		c.Desc = "catalogue: valid configuration " + o.class
+		c.Note("catalogue-valid:" + c20CfgFamily(o.class))
+		c.Nontrivial = true
+		e.runCase(r, c, "hooks", nodes, true)
 	})
 	if !r.Thorough() {
 		return
